@@ -123,6 +123,11 @@ def templates(tier):
     for tname, kw in (("buffer", {"n": 1}), ("timed_window", {"timers": True}), ("partition-timeout", {"n": 2, "timers": True}),
                       ("map_async", {"n": 1}), ("delay", {"timers": True}), ("zip", {"n": 1, "items": 2})):
         out.append(dict({"native": False, "awaiting": False, "items": 3, "fine": True}, template=tname, **kw))
+    # four un-awaited emissions parked at buffer(1), the consumer finishes, then loop-iteration steps
+    out.append({"native": False, "awaiting": False, "items": 6, "fine": True, "template": "buffer", "n": 1,
+                "prefix": [0, 8, 0, 8, 0, 0, 0], "steps": 7})
+    out.append({"native": False, "awaiting": False, "items": 6, "fine": True, "template": "map_async", "n": 1,
+                "prefix": [0, 8, 0, 8, 0, 8, 2], "steps": 6})
     return out
 
 
@@ -139,6 +144,9 @@ def obligations(tier):
         if sh.get("fine"):
             nm += "/fine"
         st = steps - 1 if (q and (sh.get("fine") or sh["template"] == "zip3")) else steps
+        if sh.get("steps"):
+            st = sh["steps"]
+            nm += "/prefix"
         obls.append({"name": nm.replace("steps=%d" % steps, "steps=%d" % st), "body": "body", "pre": "pre",
                      "shard": sh, "types": ["int"] * st, "budget": 400 if q else 2400})
     return obls
